@@ -348,7 +348,7 @@ func (in *Interp) chanSend(fr *frame, ch *Chan, v Value) {
 			in.blockOn(fr, "chan send", func() bool { return len(ch.buf) == 0 || ch.closed })
 		}
 		ch.buf = append(ch.buf, copyVal(v))
-		ch.sendVC = in.curVC()
+		ch.msgVC = append(ch.msgVC, in.curVC())
 		for len(ch.buf) > 0 && !ch.closed {
 			in.blockOn(fr, "chan send (waiting for receiver)", func() bool { return len(ch.buf) == 0 || ch.closed })
 		}
@@ -361,7 +361,7 @@ func (in *Interp) chanSend(fr *frame, ch *Chan, v Value) {
 		}
 	}
 	ch.buf = append(ch.buf, copyVal(v))
-	ch.sendVC = in.curVC()
+	ch.msgVC = append(ch.msgVC, in.curVC())
 }
 
 func (in *Interp) curVC() vclock {
@@ -385,8 +385,14 @@ func (in *Interp) chanRecv(fr *frame, ch *Chan, elem types.Type) (Value, bool) {
 	if len(ch.buf) > 0 {
 		v := ch.buf[0]
 		ch.buf = ch.buf[1:]
-		if in.sched != nil && ch.sendVC != nil {
-			in.sched.cur.vc.join(ch.sendVC)
+		// the k-th send happens before the k-th receive completes: each
+		// message carries the clock of its own send
+		if len(ch.msgVC) > 0 {
+			mv := ch.msgVC[0]
+			ch.msgVC = ch.msgVC[1:]
+			if in.sched != nil && mv != nil {
+				in.sched.cur.vc.join(mv)
+			}
 		}
 		return v, true
 	}
